@@ -3,7 +3,6 @@ package protocol
 import (
 	"io"
 	"net"
-	"os"
 	"runtime"
 
 	"github.com/enfein/mieru/v3/pkg/appctl/appctlpb"
